@@ -171,7 +171,7 @@ def make_sphero_body(dims, free_r):
     def body(H, V):
         from coxeter.shapes import ConvexSpheropolyhedron
 
-        r = V["r"] if free_r else H.num(F(1, 2))
+        r = V["r"] if free_r is True else H.num(F(0) if free_r == "zero" else F(1, 2))
         verts = [[H.num(OFF[k] + F(v[k])) for k in range(3)] for v in base]
         s = ConvexSpheropolyhedron(H.arr(verts), r)
         p = [V["px"], V["py"], V["pz"]]
@@ -279,16 +279,17 @@ def obligations(tier, seed):
                                                 positive=["a", "b", "c"], functions=functions_encoded([S.Ellipsoid.is_inside]),
                                                 bounds="semi-axes, centre, point: 9 free reals")))
     sph = [((1, 1, 1), False), ((F(1, 2), 3, 1), True)] if tier == "quick" else [((1, 1, 1), False), ((F(1, 2), 3, 1), True), ((4, F(1, 3), 2), True), ((1, 1, 1), True)]
+    sph.append(((F(1, 2), 3, 1), "zero"))  # rounding radius 0 is a legal spheropolyhedron: the solid is the core
     for dims, free_r in sph:
-        nm = "C05/sphero.box%s.%s" % ("x".join(str(d) for d in dims), "rfree" if free_r else "r0.5")
-        names = (["r"] if free_r else []) + ["px", "py", "pz"]
+        nm = "C05/sphero.box%s.%s" % ("x".join(str(d) for d in dims), {True: "rfree", False: "r0.5", "zero": "r0"}[free_r])
+        names = (["r"] if free_r is True else []) + ["px", "py", "pz"]
         obs.append((nm, (lambda nm=nm, dims=dims, free_r=free_r, names=names: run_e2(
-            nm, names, make_sphero_body(dims, free_r), positive=(["r"] if free_r else []),
+            nm, names, make_sphero_body(dims, free_r), positive=(["r"] if free_r is True else []),
             functions=functions_encoded([S.ConvexSpheropolyhedron.is_inside, S.ConvexPolyhedron.__init__]),
-            first_sample=dict(px=F(7, 2), py=F(-9, 4), pz=F(41, 8), **({"r": F(2, 5)} if free_r else {})),
+            first_sample=dict(px=F(7, 2), py=F(-9, 4), pz=F(41, 8), **({"r": F(2, 5)} if free_r is True else {})),
             max_paths=(60 if tier == "quick" else 400), budget_s=(150 if tier == "quick" else 1200),
             stubs=["ConvexHull(3-D) -> exact hull", "rowan.mapping.kabsch -> contract"],
-            bounds="box core %s at offset (3,-2,5), rounding radius %s, query point 3 free reals; concolic path budget" % (dims, "free > 0" if free_r else "1/2")))))
+            bounds="box core %s at offset (3,-2,5), rounding radius %s, query point 3 free reals; concolic path budget" % (dims, {True: "free > 0", False: "1/2", "zero": "0"}[free_r])))))
     gen = [("tetra", "r1", F(1, 2)), ("prism3", "id", F(1, 3))] if tier == "quick" else [("tetra", "r1", F(1, 2)), ("prism3", "id", F(1, 3)), ("skew", "r2", F(1, 2)), ("octa", "r3", F(1, 4)), ("pyramid", "r1", F(1, 2))]
     for shape, quat, rr in gen:
         nm = "C05/sphero.%s.%s.r%s" % (shape, quat, str(rr).replace("/", "_"))
